@@ -161,6 +161,35 @@ CLAIMED = {
             "counted as proved): one writer commit/rollback scheduled before each of the collector's storage operations; collector "
             "run inside a writer's conflict back-off.",
             "DESIGN.md 4/C06"),
+    "C09": ("Proof of the lookup and repointing contracts over snapshot lists of unbounded length (T-forest heap/list theory, witness "
+            "instantiation): get_snapshot_by_id returns exactly the retained snapshot with that id; get_snapshot_by_timestamp "
+            "returns the most recently committed retained snapshot not newer than the requested time (loop invariant over the "
+            "stable sort, under WF's TS-MONO clause which create_snapshot is proved to maintain); _most_recent_snapshot_id / "
+            "delete_snapshot repoint the table to the most recently committed survivor. Immutability of retained content is "
+            "decomposed into per-function contracts proved here or re-run from C01/C04/C05: WRITE-ONCE (manifests and manifest "
+            "lists get names with a fresh uuid token), DELETE-EXACT (deletes rewrite manifests, never edit them), DEL-OWN "
+            "(rollback deletes only the transaction's own files), and the collector's DELETE-SAFE/REACH-ALL (every retained "
+            "snapshot's files are in the reachable set). BY-TS failed on the pinned tree for clocks that step back between "
+            "commits; reproduced natively and repaired in /repo (769b67c).",
+            "Trusted: lemma IMMUT (composition of the per-function contracts into 'content of a retained snapshot never changes', "
+            "a meta-argument), A-uuid, T-forest list semantics, T-codec. 'Identical row content after every step' is not executed "
+            "symbolically; the thorough tier's history scenarios (bounded) re-read snapshots on the real code.",
+            "DESIGN.md 4/C09"),
+    "C15": ("Proof that every metadata mutator preserves the well-formedness invariant WF over snapshot lists and logs of unbounded "
+            "length: repoint_parents_to_surviving_ancestors leaves every kept snapshot with parent None/-1 or a KEPT true "
+            "ancestor (ghost ancestry relation, nested loop invariants); _apply_retention, the expire mutator, delete_snapshot "
+            "and create_snapshot each map WF(base) to WF(new): current retained (never expired / dropped), parents retained true "
+            "ancestors, sequence numbers strictly increasing in commit order and bounded by a never-decreasing "
+            "last_sequence_number, timestamps non-decreasing, snapshot_log = exactly the retained snapshots in commit order, the "
+            "cached base object never mutated; _append_metadata_log appends the superseded version once with its own timestamp and "
+            "trims only the oldest entries to min(old+1, bound); create_manifest_file / read_manifest_file carry the original "
+            "adding snapshot and sequence number of files through manifest rewrites (CARRY); _commit_file_ops removes exactly "
+            "the named files (DELETE-EXACT). Callees are applied at their proved contracts (REPOINT, shrink contracts).",
+            "Trusted: T-forest (stable sorted, comprehension order, slicing, del, deepcopy), IDS-UNIQUE/A-uuid, quantified WF "
+            "clauses handled by witness instantiation (sound, possibly incomplete), int() grammar theory, T-codec between "
+            "manifest writer and reader, termination of the ancestor walk. Existence of the files named by metadata_log is "
+            "StoreInv (nothing deletes v*.metadata.json; checked only by the bounded replay).",
+            "DESIGN.md 4/C15"),
     "C16": ("Proof over the trace of T-os calls issued by the real code: LocalStorageBackend.write_file writes the whole content to a "
             "temp file in the target's directory, fsyncs it after the last write and before os.replace, fsyncs the directory after, and "
             "an exception implies the rename did not happen; DataFileWriter.open/close do the same for parquet files (fsync of the "
